@@ -86,6 +86,17 @@ class Cutter(ast.NodeTransformer):
             node.func = ast.Name(id=ROUTED[node.func.id], ctx=ast.Load())
         return node
 
+    def visit_Compare(self, node):
+        self.generic_visit(node)
+        if self.route and len(node.ops) == 1 and isinstance(node.ops[0], (ast.In, ast.NotIn)):
+            # `x in container`: str.__contains__ / bytes.__contains__ are C methods that reject proxies (other containers compare with ==, which proxies implement)
+            self.log.append("line %d: `in` -> _pyvc_in(x, container)" % node.lineno)
+            call = ast.Call(func=ast.Name(id="_pyvc_in", ctx=ast.Load()), args=[node.left, node.comparators[0]], keywords=[])
+            if isinstance(node.ops[0], ast.NotIn):
+                call = ast.UnaryOp(op=ast.Not(), operand=call)
+            return ast.copy_location(call, node)
+        return node
+
     def visit_Assign(self, node):
         self.generic_visit(node)
         if (self.route and len(node.targets) == 1 and isinstance(node.targets[0], ast.Name)
@@ -531,6 +542,17 @@ def p_join(sep, items):
     return out
 
 
+def p_in(x, container):
+    """x in container.  A symbolic string in a concrete str/bytes is the substring test of CPython, decided by the solver; everything else is left to CPython
+    (tuples, lists, sets of constants compare with ==; symbolic containers implement __contains__ themselves)"""
+    if isinstance(x, SStr) and isinstance(container, (str, bytes)) and not isinstance(container, Proxy):
+        if isinstance(container, bytes) != bool(x.is_bytes):
+            raise TypeError("'in <string>' requires string as left operand")
+        lit = container.decode("latin1") if isinstance(container, bytes) else container
+        return cx().branch(z3.Contains(z3.StringVal(lit), x.t))
+    return x in container
+
+
 def p_memoryview(obj):
     """memoryview(x): a contract stub standing for a buffer supplies its own view (x.__pyvc_memoryview__()); real buffers get a real memoryview"""
     f = getattr(obj, "__pyvc_memoryview__", None)
@@ -552,7 +574,7 @@ def p_bytearray(*a):
     return bytearray(*a)
 
 
-HELPERS = {"_pyvc_memoryview": p_memoryview, "_pyvc_bytearray": p_bytearray, "_pyvc_join": p_join, "_pyvc_fstr": p_fstr, "_pyvc_percent": p_percent, "_pyvc_len": p_len, "_pyvc_isinstance": p_isinstance, "_pyvc_int": p_int,
+HELPERS = {"_pyvc_in": p_in, "_pyvc_memoryview": p_memoryview, "_pyvc_bytearray": p_bytearray, "_pyvc_join": p_join, "_pyvc_fstr": p_fstr, "_pyvc_percent": p_percent, "_pyvc_len": p_len, "_pyvc_isinstance": p_isinstance, "_pyvc_int": p_int,
            "_pyvc_min": p_min, "_pyvc_max": p_max, "_pyvc_bool": p_bool, "_pyvc_str": p_str,
            "_pyvc_abs": p_abs, "_pyvc_bytes": p_bytes, "_pyvc_range": p_range,
            "_pyvc_newdict": lambda name: {}, "_pyvc_newlist": lambda name: []}
